@@ -650,7 +650,7 @@ pub fn string_replace(
                                 None => call_args.push(JsValue::Undefined),
                             }
                         }
-                        call_args.push(JsValue::Number(m.start as f64));
+                        call_args.push(JsValue::Number(char_index_of(&s, m.start) as f64));
                         call_args.push(JsValue::String(JsString::from(s.clone())));
 
                         let replace_result = interp.call_function(
@@ -921,6 +921,12 @@ pub fn string_code_point_at(
     }))
 }
 
+/// The character index (what scripts see) of a byte offset reported by the matcher
+#[cfg(feature = "regex")]
+fn char_index_of(text: &str, byte: usize) -> usize {
+    text.get(..byte).map(|p| p.chars().count()).unwrap_or(0)
+}
+
 /// The pattern `new RegExp(arg)` would have: `undefined` is the empty pattern
 #[cfg(feature = "regex")]
 fn regexp_source_of(interp: &mut Interpreter, arg: &JsValue) -> String {
@@ -1023,7 +1029,7 @@ pub fn string_match(
                 // Add index property
                 let index_key = PropertyKey::String(interp.intern("index"));
                 arr.borrow_mut()
-                    .set_property(index_key, JsValue::Number(m.start as f64));
+                    .set_property(index_key, JsValue::Number(char_index_of(&s, m.start) as f64));
 
                 // Add input property
                 let input_key = PropertyKey::String(interp.intern("input"));
@@ -1111,7 +1117,7 @@ pub fn string_match_all(
         let index_key = PropertyKey::String(interp.intern("index"));
         let match_start = caps.get(0).map(|m| m.start()).unwrap_or(0);
         arr.borrow_mut()
-            .set_property(index_key, JsValue::Number(match_start as f64));
+            .set_property(index_key, JsValue::Number(char_index_of(&s, match_start) as f64));
 
         // Add input property
         let input_key = PropertyKey::String(interp.intern("input"));
@@ -1172,7 +1178,9 @@ pub fn string_search(
     let re = interp.compile_regexp(&pattern, &flags)?;
 
     match re.find(&s, 0).map_err(JsError::type_error)? {
-        Some(m) => Ok(Guarded::unguarded(JsValue::Number(m.start as f64))),
+        Some(m) => Ok(Guarded::unguarded(JsValue::Number(
+            char_index_of(&s, m.start) as f64,
+        ))),
         None => Ok(Guarded::unguarded(JsValue::Number(-1.0))),
     }
 }
